@@ -546,6 +546,41 @@ impl World {
             Some(Outcome::GoldWin) => 1,
             Some(Outcome::SilverWin) => 2,
         });
+        if ctx.guided && !setup {
+            // abstract features of this state; rare combinations become starting points of later runs
+            let step_e = if self.gs.is_play_phase() { eng!("current_step", self.gs.current_step()) } else { 0 };
+            let mut own_steps = false;
+            let mut pulls = false;
+            let mut pushes = false;
+            for a in self.m.legal() {
+                if let Act::Step(q, d) = a {
+                    match self.m.board[q.0 as usize] {
+                        Some((s, _)) if s == self.m.side => own_steps = true,
+                        Some(_) => {
+                            let t = q.step(d);
+                            if matches!(self.m.pending, Pending::Pull(v, _) if Some(v) == t) { pulls = true } else { pushes = true }
+                        }
+                        None => {}
+                    }
+                }
+            }
+            let all_frozen = (0..64u8).all(|i| !matches!(self.m.board[i as usize], Some((s, _)) if s == self.m.side) || frozen(&self.m.board, Sq(i)));
+            let pass_state = if ns.iter().any(|x| x == "p") { if rs.iter().any(|x| x == "p") { 1 } else { 2 } } else { 0 };
+            let trapped = self.gs.as_play_phase().map_or(false, |pp| pp.piece_trapped_this_turn());
+            let cycle = self.rec.turn_boards.first().map_or(false, |b| self.rec.occurrences(b, self.m.side) >= 2);
+            let res = match (outcome_of(&result), mid) { (None, _) => 0, (Some(_), true) => 1, (Some(_), false) => 2 };
+            let npieces = pieces(&self.m.board);
+            let bucket = if npieces <= 4 { 0 } else if npieces <= 8 { 1 } else if npieces <= 16 { 2 } else { 3 };
+            let mut f = Fp::new();
+            for v in [step_e as u8, match self.m.pending { Pending::None => 0, Pending::Pull(..) => 1, Pending::Push(..) => 2 }, pass_state, own_steps as u8, pulls as u8, pushes as u8,
+                withheld_any as u8, (rs.len() == 1) as u8, rs.is_empty() as u8, all_frozen as u8, trapped as u8, cycle as u8, res, bucket, self.m.side as u8] {
+                f.u8(v);
+            }
+            ctx.last_feature = Some(f.finish());
+            // states with hardly any action left while the repetition rules are biting are where the
+            // summary queries and the result can go wrong: continue from them more often
+            ctx.last_feature_weight = if rs.len() <= 2 && withheld_any { 8 } else if rs.len() <= 3 || (withheld_any && step_e >= 2) { 3 } else { 1 };
+        }
         ctx.check("panic_free.state_queries", p(19), true, String::new);
         self.settle(ctx)?;
         let finished = result.is_some() || rep.is_empty();
